@@ -59,7 +59,8 @@ def regex_member(run, mid, key, r, comp, N, variant=None, spec=None, states=True
                 A.decide_refusal(run, ob, r, msg, variant)
             except A.Outside as ex:
                 ob.set(INCONCLUSIVE, f"outside the claim: {ex}")
-            run.log(f"{ob.status:12s} {ob.id} {ob.detail[:120]}")
+            if not light or ob.status != HOLDS:
+                run.log(f"{ob.status:12s} {ob.id} {ob.detail[:120]}")
             return
         if "not allowed under complement" in msg:
             ob.nontrivial = False
